@@ -9,10 +9,11 @@ import Asn1Proofs.Lemmas.X690CompAll
   character strings as arbitrarily nested constructed segments, any non-zero octet for TRUE, any
   value of the unused bits; everything else as the DER encoder produces it.
 
-  Named deviations of the code (decidable predicate `X690.berDeviates t bs`: accepted by the
+  Named deviation of the code (decidable predicate `X690.berDeviates t bs`: accepted by the
   reference decoder but not by `X690.berDecodeRefStrict`, Asn1Model/X690Strict.lean):
-    * `indefiniteExtensibleNoAddition` -- KNOWN DEFECT of ber.py, `witness_indefinite_extensible_rejected`;
     * `dirtyUnusedBits` -- `witness_dirty_unused_bits`.
+  A second one, `indefiniteExtensibleNoAddition` (a genuine defect of ber.py), has been repaired in
+  /repo commit 300e5ac and is no longer a deviation: `fixed_indefinite_extensible_accepted`.
 -/
 namespace Asn1.C04
 open Asn1
@@ -68,19 +69,33 @@ theorem any_length_form (l : Bytes) (n : Nat) (content rest : Bytes) (d : Bool)
   obtain ⟨hdr, h2, _⟩ := X690.readLen_of_readLength (d := d) h1 (X690.takeN_append content rest)
   exact ⟨hdr, h2⟩
 
-/-- KNOWN DEFECT, kept visible: SEQUENCE { a BOOLEAN, ..., b INTEGER OPTIONAL }, indefinite length,
-no addition present: `30 80 80 01 ff 00 00` is valid BER and the code rejects it -/
-theorem witness_indefinite_extensible_rejected :
+/-- REGRESSION for the repaired defect (commit 300e5ac): SEQUENCE { a BOOLEAN, ..., b INTEGER OPTIONAL },
+indefinite length, no addition present -- `30 80 80 01 ff 00 00` used to be a `DecodeError`.  Now it
+decodes (with DEFAULT additions filled in), also nested, also through the DER model. -/
+theorem fixed_indefinite_extensible_accepted :
     let t : Ty := .sequence (.cons "a" .mandatory .boolean .nil) true (.cons "b" .optional (.integer ⟨none, none, false⟩) .nil)
+    let d : Ty := .sequence (.cons "a" .mandatory .boolean .nil) true (.cons "b" (.default (.int 7)) (.integer ⟨none, none, false⟩) .nil)
+    let o : Ty := .sequence (.cons "x" .mandatory t (.cons "y" .mandatory .boolean .nil)) false .nil
     X690.berDecodeRef t [0x30, 0x80, 0x80, 0x01, 0xff, 0x00, 0x00] = some (.record [("a", .bool true)]) ∧
-    BerCodec.decode t [0x30, 0x80, 0x80, 0x01, 0xff, 0x00, 0x00] = .error .decodeError ∧
+    BerCodec.decodeWithLength t [0x30, 0x80, 0x80, 0x01, 0xff, 0x00, 0x00] = .ok (.record [("a", .bool true)], 7) ∧
+    BerCodec.decodeWithLength d [0x30, 0x80, 0x80, 0x01, 0xff, 0x00, 0x00] = .ok (.record [("a", .bool true), ("b", .int 7)], 7) ∧
+    BerCodec.decodeWithLength o [0x30, 0x80, 0xa0, 0x80, 0x80, 0x01, 0xff, 0x00, 0x00, 0x81, 0x01, 0x00, 0x00, 0x00]
+      = .ok (.record [("x", .record [("a", .bool true)]), ("y", .bool false)], 14) ∧
+    BerCodec.decodeWithLength o [0x30, 0x0a, 0xa0, 0x80, 0x80, 0x01, 0xff, 0x00, 0x00, 0x81, 0x01, 0x00]
+      = .ok (.record [("x", .record [("a", .bool true)]), ("y", .bool false)], 12) ∧
+    X690.berDecodeRef o [0x30, 0x80, 0xa0, 0x80, 0x80, 0x01, 0xff, 0x00, 0x00, 0x81, 0x01, 0x00, 0x00, 0x00]
+      = some (.record [("x", .record [("a", .bool true)]), ("y", .bool false)]) ∧
     BerCodec.decode t [0x30, 0x03, 0x80, 0x01, 0xff] = .ok (.record [("a", .bool true)]) ∧
-    BerCodec.decode t [0x30, 0x80, 0x80, 0x01, 0xff, 0x81, 0x01, 0x05, 0x00, 0x00] = .ok (.record [("a", .bool true), ("b", .int 5)]) :=
-  X690.witness_indefinite_extensible_rejected
+    BerCodec.decode t [0x30, 0x80, 0x80, 0x01, 0xff, 0x81, 0x01, 0x05, 0x00, 0x00] = .ok (.record [("a", .bool true), ("b", .int 5)]) ∧
+    Der.decodeWithLength t [0x30, 0x80, 0x80, 0x01, 0xff, 0x00, 0x00] = .ok (.record [("a", .bool true)], 7) ∧
+    Der.decodeWithLength o [0x30, 0x0a, 0xa0, 0x80, 0x80, 0x01, 0xff, 0x00, 0x00, 0x81, 0x01, 0x00]
+      = .ok (.record [("x", .record [("a", .bool true)]), ("y", .bool false)], 12) :=
+  X690.fixed_indefinite_extensible_accepted
 
-theorem witness_indefinite_extensible_is_deviation :
+/-- ... and it is no deviation any more -/
+theorem fixed_indefinite_extensible_no_deviation :
     X690.berDeviates (.sequence (.cons "a" .mandatory .boolean .nil) true (.cons "b" .optional (.integer ⟨none, none, false⟩) .nil))
-      [0x30, 0x80, 0x80, 0x01, 0xff, 0x00, 0x00] = true := by rfl
+      [0x30, 0x80, 0x80, 0x01, 0xff, 0x00, 0x00] = false := by rfl
 
 /-- deviation `dirtyUnusedBits`: the code returns the unused bits as part of the value -/
 theorem witness_dirty_unused_bits :
